@@ -7,7 +7,7 @@
    against the real code on every run by the check that owns it (C02 C04 C05 C07 C09 C14). *)
 From Coq Require Import ZArith List Bool String.
 From L60870 Require Import Apci.Reasm Apci.ReasmProofs Apci.KBuf Apci.KBufProofs Apci.BoundsProofs.
-From L60870 Require Import Apci.Frame Cs104.Server Cs104.ServerProofs.
+From L60870 Require Import Apci.Frame Cs104.Server Cs104.ServerProofs Cs104.MsgQueue Cs104.HpRingProofs Cs104.MqRingProofs.
 From L60870 Require Import Link.Ft12 Link.Ft12Proofs Link.LinkSec Link.LinkPrim Link.LinkProofs.
 From L60870 Require Import Asdu.Layout Asdu.Codec Asdu.CodecProofs.
 From L60870 Require Import Dispatch.DispatchBase Dispatch.Dispatch104 Dispatch.Dispatch101 Dispatch.DispatchSpec Dispatch.DispatchProofs Dispatch.Builders Dispatch.BuildersProofs.
@@ -36,6 +36,17 @@ Proof. exact krun_inv. Qed.
 Theorem C10_kbuf_indices : forall kb vs c, Inv kb vs c -> 1 <= c ->
   0 <= oldest kb < maxk kb /\ 0 <= newest kb < maxk kb.
 Proof. exact kbuf_indices_in_range. Qed.
+
+(* the two queue rings of the server (event queue, high-priority queue): along every history no header is read where no
+   live entry starts, and every live entry lies inside its arena *)
+Theorem C10_event_ring_no_stale_read : forall n ops, 1 <= n -> 1 + Z.of_nat (List.length ops) < TWO64 - 1 ->
+  exists q' outs l', mq_run (mq_new n) [] ops = MsgQueue.Ok (q', outs) /\ MQInv q' l'.
+Proof. intros n ops Hn Hl. apply (mq_no_fault ops (mq_new n) [] []); [apply MQInv_new; exact Hn | constructor | exact Hl]. Qed.
+Theorem C10_event_ring_in_arena : forall q l p, MQInv q l -> In p l -> 0 <= fst p /\ fst p + MqRingProofs.esz (snd p) <= qsize q.
+Proof. exact mq_entries_in_arena. Qed.
+Theorem C10_response_ring_no_stale_read : forall n ops, 1 <= n ->
+  exists q' outs accs, hp_run (hp_new n) ops = MsgQueue.Ok (q', outs) /\ outs = fifo_run [] ops accs /\ List.length accs = List.length ops.
+Proof. intros n ops H. apply hp_refines_fifo. apply HPInv_new. exact H. Qed.
 
 (* CS104 protocol errors close the offending connection and produce nothing else *)
 Theorem C10_i_frame_when_not_started_closes : forall g now s c f,
